@@ -167,8 +167,10 @@ def prove_function(uname, t, cfile, qual, spec, tier, extra_replace):
         rec['reason'] = 'goto-cc failed: ' + (e or o)[-1500:]
         return rec
     text = open(cfile).read()
+    # a callee is replaced only if it is actually called somewhere (its declaration alone is one occurrence;
+    # goto-cc drops symbols that are never referenced and goto-instrument aborts on an unknown function)
     replace = [g for g in list(spec.get('replace', [])) + list(extra_replace)
-               if g != cname and re.search(r'\b%s\s*\(' % re.escape(g), text)]
+               if g != cname and len(re.findall(r'\b%s\s*\(' % re.escape(g), text)) >= 2]
     seen = set()
     replace = [g for g in replace if not (g in seen or seen.add(g))]
     gi = ['goto-instrument', '--dfcc', 'h_' + cname, '--enforce-contract', cname]
